@@ -11,6 +11,9 @@ equivalent.  sat -> IEEE witness -> replay on real float64 arrays.
 """
 from __future__ import annotations
 
+import base64
+import pickle
+
 import sys
 import time
 from typing import Any, Dict
@@ -49,7 +52,11 @@ def work(item) -> Dict[str, Any]:
         return out
     if twin:
         prog = _falsify(prog, twin)
-    for spelling in ('pos', 'neg'):
+    from gram import Var as _V, walk as _walk
+    has_offset = any(isinstance(n, _V) and n.off for eq in prog for n in _walk(eq.expr))
+    # the negative spelling of t matters where some access is offset from t; elsewhere it is run for every 8th program
+    spellings = ('pos', 'neg') if (has_offset or vlib.tier() == 'thorough' or hash(show(prog)) % 8 == 0) else ('pos',)
+    for spelling in spellings:
         r = equivalence(prog, ref, pb['Model'], pb['symbols'], spelling=spelling)
         out['paths'] += r['paths']
         add_stats(out['stats'], r['stats'])
@@ -60,7 +67,7 @@ def work(item) -> Dict[str, Any]:
         for b in r['bad']:
             rb = replay_values(prog, pb['Model'], b['witness'], symbols=pb['symbols'], seed=vlib.seed())
             out['bad'].append({'what': '; '.join(b['symbolic'][:3]) + f' [{spelling}]', 'replayed': bool(rb),
-                               'replay': {'text': text, 'witness': b['witness'], 'concrete': rb}})
+                               'replay': {'text': text, 'witness': b['witness'], 'concrete': rb, 'program_pickle': base64.b64encode(pickle.dumps(prog)).decode()}})
     return out
 
 
@@ -95,7 +102,7 @@ def main() -> int:
             items.append((p, 'plain', None))
     for p in ps['fixed'] + ps['sampled'][: (40 if tier == 'quick' else 400)]:
         items.append((p, 'wide', None))
-    results = run_items(work, items)
+    results = run_items(work, items, soft_items=ps['sampled'])
     from gram import Bin, Eq, Num, Var
     twins = [((Eq(Var('Y'), Bin('+', Var('X', off=-1), Var('Z'))),), 'plain', 'lag_off'),
              ((Eq(Var('Y'), Bin('*', Var('X'), Num('2'))),), 'plain', 'plus_one')]
